@@ -5,6 +5,7 @@ package c01
 
 import (
 	"fmt"
+	"strings"
 	"testing"
 
 	"github.com/cockroachdb/pebble/internal/verif/hx"
@@ -41,6 +42,12 @@ var alphabet = []hx.Op{
 	{K: "ingest", Sub: []hx.Op{{K: "set", Key: "b"}, {K: "delrange", Key: "a", End: "b"}}},
 	{K: "ingestexcise", Key: "a", End: "c", Sub: []hx.Op{{K: "set", Key: "b"}}},
 	{K: "compact", Key: "a", End: "b"},
+	// range keys ride along (their iterator semantics are C08's job; here: they survive every
+	// maintenance path and never disturb points)
+	{K: "rkset", Key: "a", End: "c", Suf: "@1"},
+	{K: "rkdel", Key: "a", End: "b"},
+	{K: "batch", Sub: []hx.Op{{K: "set", Key: "b"}, {K: "rkset", Key: "b", End: "z", Suf: "@2"}}},
+	{K: "ingestexcise", Key: "a", End: "c", Sub: []hx.Op{{K: "set", Key: "b"}, {K: "set", Key: "c"}}}, // largest key == excise end
 }
 
 const coreN = 13
@@ -60,12 +67,16 @@ var shapes = map[string][]hx.Op{
 		{K: "set", Key: "a"}, {K: "set", Key: "b"}, {K: "set", Key: "c"}, {K: "flush"},
 		{K: "excise", Key: "b", End: "c"}, {K: "merge", Key: "a"},
 	},
+	"l6+l0+mem": {
+		{K: "set", Key: "a"}, {K: "set", Key: "b"}, {K: "set", Key: "c"}, {K: "flush"}, {K: "compact"},
+		{K: "set", Key: "b"}, {K: "flush"}, {K: "set", Key: "a"},
+	},
 	"merge-stack": {
 		{K: "merge", Key: "a"}, {K: "flush"}, {K: "merge", Key: "a"}, {K: "flush"}, {K: "merge", Key: "a"},
 	},
 }
 
-var shapeOrder = []string{"empty", "l0x2+l6", "rangedel-over-l6", "virtual-after-excise", "merge-stack"}
+var shapeOrder = []string{"empty", "l0x2+l6", "rangedel-over-l6", "virtual-after-excise", "merge-stack", "l6+l0+mem"}
 
 var configs = []hx.Config{
 	{Name: "base"},
@@ -79,6 +90,8 @@ var configs = []hx.Config{
 	{Name: "flushsplit", L0Sublevels: true},
 	{Name: "blocksize1", BlockSize: 1},
 	{Name: "tinymanifest", TinyManifest: true},
+	{Name: "autocompact-tablestats", AutoCompact: true, TinyFiles: true, TableStats: true},
+	{Name: "default-thresholds-tablestats", AutoDefault: true, TableStats: true},
 }
 
 // Case is the replay artefact.
@@ -114,7 +127,7 @@ func runHistory(c *vlib.Ctx, cfg hx.Config, shape string, hist []hx.Op, verbose 
 			x.D.Close()
 			return result{illegalAt: i - len(pre)}
 		}
-		if !cfg.Supports(op) {
+		if !cfg.Supports(op) || (cfg.DefaultCmp && hasRangeKey(op)) {
 			x.D.Close()
 			return result{illegalAt: i - len(pre)}
 		}
@@ -135,7 +148,10 @@ func runHistory(c *vlib.Ctx, cfg hx.Config, shape string, hist []hx.Op, verbose 
 		case "delrange", "batch":
 			rewrites = true
 		}
-		if d := hx.CompareLatest(x.D, m, universe, false); d != "" {
+		if cfg.Auto() {
+			x.D.VerifWaitIdle()
+		}
+		if d := hx.CompareLatest(x.D, m, universe, !cfg.DefaultCmp); d != "" {
 			x.D.Close()
 			return result{illegalAt: -1, fail: fmt.Sprintf("after step %d (%s): %s", i, op, d), class: "model-mismatch", step: i}
 		}
@@ -187,6 +203,9 @@ func TestCheck(t *testing.T) {
 			}
 			for _, s := range shapeOrder[1:] {
 				plans = append(plans, plan{configs[0], s, alphabet, 2})
+			}
+			for _, cfg := range configs[len(configs)-2:] {
+				plans = append(plans, plan{cfg, "l6+l0+mem", alphabet[:coreN], 3})
 			}
 		} else {
 			plans = append(plans, plan{configs[0], "empty", alphabet, 4})
@@ -241,4 +260,16 @@ func TestCheck(t *testing.T) {
 		}
 		c.Note("plans", planNotes)
 	})
+}
+
+func hasRangeKey(op hx.Op) bool {
+	if strings.HasPrefix(op.K, "rk") {
+		return true
+	}
+	for _, s := range op.Sub {
+		if hasRangeKey(s) {
+			return true
+		}
+	}
+	return false
 }
